@@ -77,6 +77,17 @@ def two_statuses():
     return out
 
 
+def named_currencies():
+    """The configuration as an application writes it: the currency by its ISO 4217 name. Whatever names the library accepts, the
+    reservation and the release go out in the currency the name stands for."""
+    out = []
+    for name in list(cl.ISO_4217) + ["sek", "Eur", "gbp", "XXX", ""]:
+        out.append({"config": {"currency_name": name, "max": 1},
+                    "calls": [{"op": "begin", "token": [97], "amount": []}, {"op": "commit", "token": [97], "amount": [1]}],
+                    "plan": {"exchanges": [], "default": {"o": "ok", "status": {"amount": [1]}}}})
+    return out
+
+
 def run(chk):
     wd = vlib.workdir("C08")
     thorough = chk.tier == "thorough"
@@ -86,7 +97,7 @@ def run(chk):
     walks = cl.random_walks(chk.seed + 8, 3000 if thorough else 300, 6)
     again = refused_then_again()
     scripts = cl.script_walks(chk, binary, wd, chk.seed + 8, 2000 if thorough else 150)
-    cards = card_first() + two_statuses()
+    cards = card_first() + two_statuses() + named_currencies()
     out = cl.run_scenarios(binary, sc + again + walks + scripts + cards, wd, "c08")
     outs, ifl, pfl = cl.validate(chk, out, wd, "c08", shard=600)
     cl.report(chk, outs, ifl, pfl, {"P08", "abnormal"}, WHAT)
